@@ -37,6 +37,7 @@ class Run:
         self.ci_pool = []
         self.ci_shapes = {}
         self.unschedulable = None
+        self.results = {}
 
     def count(self, k, n=1):
         self.counters[k] = self.counters.get(k, 0) + n
@@ -44,6 +45,8 @@ class Run:
     def run(self):
         sc = self.sc
         w = self.w = SWorld(sc)
+        self.sc_cur = _copy.deepcopy({k: sc[k] for k in ('tasks', 'links', 'external', 'resources') if k in sc})
+        self.edited = False
         self.st = st = so.Struct(effective(sc, w))
         if w.rejected_links:
             self.count('links_rejected_by_api', len(w.rejected_links))
@@ -74,14 +77,86 @@ class Run:
                 self.sched_proj[key] = out['ctor_reads'][0] if out['ctor_reads'] else None
         return self.sched_proj[key]
 
+    def step_mutate(self, i, op):
+        """a WBS edit between two calcs: the following calcs are judged against the edited scenario"""
+        w = self.w
+        ok = w.mutate(op['m'])
+        self.log.add('mutate', i, op['m'], ok)
+        if not ok:
+            self.count('mutation_rejected_by_api')
+            return []
+        self.count('probe.wbs_edited_between_calcs')
+        m = op['m']
+        cur = self.sc_cur
+        if m['kind'] == 'cal_set_units':
+            self.count('probe.calendar_edited_between_calcs')
+        elif m['kind'] == 'add_link':
+            cur['links'].append(list(m['link']))
+        elif m['kind'] == 'remove_link':
+            cur['links'] = [l for l in cur['links'] if l != list(m['link'])]
+        elif m['kind'] == 'set_kw':
+            for t in cur['tasks']:
+                if t['name'] == m['task']:
+                    if m['value'] is None:
+                        t['kw'].pop(m['key'], None)
+                    else:
+                        t['kw'][m['key']] = m['value']
+        self.st = so.Struct(effective(cur, w))
+        self.ci_pool = []
+        self.edited = True
+        return []
+
     def step(self, i, op):
+        if op['op'] == 'mutate':
+            return self.step_mutate(i, op)
+        if op.get('on_result') is not None:
+            return self.step_on_result(i, op)
+        return self.step_calc(i, op, None)
+
+    def step_on_result(self, i, op):
+        """feed the schedule produced by an earlier calc back into a scheduler, with its dates cleared"""
+        prev = self.results.get(op['on_result'])
+        if prev is None:
+            return []
+        wbs2 = prev.schedule
+        sc2 = _copy.deepcopy(self.sc_cur)
+        by_id = {t.id: t for t in wbs2.tasks}
+        for t in sc2['tasks']:
+            obj = by_id.get(t['id'])
+            if obj is None:
+                return []
+            t['kw'].pop('start', None)
+            t['kw'].pop('end', None)
+            if not op.get('clear', True) and not obj.children and obj.start is not None and obj.end is not None:
+                t['kw']['start'], t['kw']['end'] = core.iso(obj.start), core.iso(obj.end)
+            for k in ('estimate', 'spent'):
+                v = getattr(obj, k)
+                if v is None:
+                    t['kw'].pop(k, None)
+                else:
+                    t['kw'][k] = v
+        if op.get('clear', True):
+            for obj in by_id.values():
+                obj.start = obj.end = None
+        saved = self.st
+        self.st = so.Struct(effective(sc2, self.w))
+        self.count('probe.result_fed_back_into_scheduler')
+        try:
+            return self.step_calc(i, op, wbs2)
+        finally:
+            self.st = saved
+
+    def step_calc(self, i, op, wbs):
         w, st, sc = self.w, self.st, self.sc
         params = sc['schedulers'][op['sched']]
         pre = input_snapshot(w)
         if op['op'] == 'calc_minus':
             return self.step_minus(i, op, params, pre)
-        out = w.calc(op)
+        pre2 = wbs_snapshot(wbs) if wbs is not None else None
+        out = w.calc(op, wbs=wbs)
         post = input_snapshot(w)
+        if out['outcome'] == 'ok':
+            self.results[i] = out['result']
         proj = self.project_date(op, out, params)
         reads = out['reads']
         if reads:
@@ -98,6 +173,8 @@ class Run:
         self.probes(c, op, out, view)
         # ---- C06 purity (also when the call raised)
         d = diff_input(pre, post, set(w.ext))
+        if d is None and wbs is not None and wbs_snapshot(wbs) != pre2:
+            d = 'the WBS passed to calc (an earlier result with cleared dates) changed'
         if d:
             vs.append(so.V('C06', 'input-modified', f'calc ({out["outcome"]}) changed the input: {d}', c))
         # ---- C14 outcome
@@ -115,25 +192,31 @@ class Run:
             self.nontrivial = True
         in_domain = self.in_domain(params) and (params['dir'] == 'fwd' or self.bwd_domain()) and not self.unschedulable
         # ---- structure of the result (C06)
-        r = so.check_c06_result(c, pre)
+        r = so.check_c06_result(c, pre) if wbs is None else None
+        if wbs is not None:
+            for n, d in view['tasks'].items():
+                if d['start'] is None or d['end'] is None:
+                    r = so.V('C06', 'missing-dates', f'{n}: start {d["start"]}, end {d["end"]} (re-scheduled result)', c)
+                    break
         if r:
             vs.append(r)
-            return vs
+            if r.clause != 'missing-dates':
+                return vs
         # ---- determinism / clock independence (C06)
         ref_i = op.get('equal_to')
-        if ref_i is not None and self.views.get(ref_i) is not None:
+        if ref_i is not None and self.views.get(ref_i) is not None and not self.edited and wbs is None:
             if comp != self.views[ref_i]:
                 vs.append(so.V('C06', 'not-deterministic', f'calc #{i} differs from calc #{ref_i} with equal inputs and clock: {first_diff(self.views[ref_i], comp)}', c))
             else:
                 self.count('probe.repeat_equal')
-        if op.get('ci') and proj is not None and c.r_max is not None and c.r_max <= proj:
+        if wbs is None and op.get('ci') and proj is not None and c.r_max is not None and c.r_max <= proj:
             for j, other in [(j, o) for (j, o) in self.ci_views() if self.sc['ops'][j]['sched'] == op['sched']]:
                 if other != comp:
                     shape = so.f17_shape(c) or self.ci_shapes.get(j)
                     vs.append(so.V('C06', 'clock-dependent', f'clock {op["clock"]} vs calc #{j}: {first_diff(other, comp)}', c, shape))
                     break
             self.count('probe.clock_independence_compared')
-        if params['dir'] == 'fwd' and proj is not None and c.r_max is not None and c.r_max <= proj and 'start' in params:
+        if wbs is None and params['dir'] == 'fwd' and proj is not None and c.r_max is not None and c.r_max <= proj and 'start' in params:
             f17 = 'F17' in self.quarantine and proj != day(proj) and c.r_max.date() == proj.date()
             if not f17:
                 self.ci_pool.append((i, comp))
@@ -150,7 +233,7 @@ class Run:
             r = self.safe('C08', so.check_c08, c, self.quarantine)
             if r:
                 vs.append(r)
-            if params['dir'] == 'bwd':
+            if params['dir'] == 'bwd' and self.bwd_domain() == 'strict':
                 if reads:
                     vs.append(so.V('C09', 'clock-read', f'backward calc read the clock {len(reads)} times', c))
                 r = self.safe('C09', so.check_c09, c)
@@ -180,14 +263,21 @@ class Run:
         return not self.st.expanded_cyclic()
 
     def bwd_domain(self):
-        """C09: no user-fixed dates on leaves, no external predecessors"""
+        """'strict': no user-fixed dates on leaves and no external predecessors (the domain C09 is written for).
+        'loose': user-fixed STARTS allowed (the backward scheduler only ever moves such a start earlier), which is
+        enough for C03, C07 and the reservation clauses of C04.  None: a leaf has a user-fixed end or there is an
+        external predecessor; the backward statements say nothing about those."""
         if self.st.ext:
-            return False
+            return None
+        kind = 'strict'
         for n in self.st.order_listed:
             kw = self.st.spec[n].get('kw', {})
-            if self.st.is_leaf(n) and (kw.get('start') or kw.get('end')):
-                return False
-        return True
+            if self.st.is_leaf(n):
+                if kw.get('end'):
+                    return None
+                if kw.get('start'):
+                    kind = 'loose'
+        return kind
 
     # ---- C14
     def judge_c14(self, c, op, out):
@@ -240,7 +330,7 @@ class Run:
             self.count('probe.unschedulable_returned')
         elif must_raise:
             self.count('probe.unschedulable_diagnosed')
-        elif out['outcome'] == 'exc' and not may_raise and sc.get('klass') == 'ok' and not self.fragile(params):
+        elif out['outcome'] == 'exc' and not may_raise and sc.get('klass') in ('ok', 'late_cycle') and not self.fragile(params):
             vs.append(so.V('C14', 'spurious-diagnosis', f'schedulable input rejected: {exc[1]}', c))
         return vs
 
@@ -298,7 +388,7 @@ class Run:
         w, st = self.w, self.st
         ref = self.views.get(op['ref'])
         name = op['remove']
-        if ref is None or name not in w.tasks or params.get('balance', True) or params['dir'] != 'fwd':
+        if ref is None or name not in w.tasks or params.get('balance', True) or params['dir'] != 'fwd' or self.edited:
             return []
         # with a moving clock the number of reads before each task changes when a task is removed
         ref_clock = self.sc['ops'][op['ref']]['clock']
@@ -357,6 +447,12 @@ class Run:
             if not st.is_leaf(n) and st.preds[n]:
                 self.count('probe.summary_level_link')
                 break
+
+
+def wbs_snapshot(wbs):
+    from .sworld import fields
+    return [(t.id, t.parent.id if t.parent else None, [c.id for c in t.children], [p.id for p in t.predecessors],
+             [x.id for x in t.successors], fields(t)) for t in wbs.tasks]
 
 
 def diff_input(a, b, ext):
@@ -508,7 +604,7 @@ def shrink(trace, prop, clause):
                 if r:
                     cur, changed = r, True
         for oi, o in enumerate(cur['ops']):
-            if o.get('clock', {}).get('kind') != 'frozen':
+            if 'clock' in o and o['clock'].get('kind') != 'frozen':
                 r = attempt(lambda sc, oi=oi: sc['ops'][oi].__setitem__('clock', {'kind': 'frozen', 't': sc['ops'][oi]['clock']['t']}))
                 if r:
                     cur, changed = r, True
